@@ -391,6 +391,108 @@ def odeRhsNamed [IntCast α] (reg : Registry α) (p : List (PyVal α)) (rxns : L
       | .error e => .error e
       | .ok ks => plainRhs ks rxns ys ns
 
+
+/-! ## an `Expr`-valued rate constant: `MassAction(Arrhenius([A, Ea_over_R]))` -/
+
+/-- `Arrhenius.__call__` (rates.py 262-268) on plain numbers: `A * exp(-Ea_over_R / T)` -/
+def arrheniusEval [HasExp α] (A EaR T : α) : α := A * HasExp.exp (-(EaR / T))
+
+/-- the three unitless numbers the unit-aware system evaluates the Arrhenius expression on:
+    `Expr.dedimensionalisation(unit_registry)` converts each argument with the registry unit of ITS OWN dimension
+    (`dedimArg`: `A`, then `Ea_over_R`), and the temperature arrives through the third `to_arrays` callback with
+    `p_unit = _get_derived_unit(reg, "temperature")` (ode.py 304, 337-342) -/
+def arrheniusArgs (reg : Registry α) (A EaR T : PyVal α) : Except Err (α × α × α) :=
+  match dedimArg reg A with
+  | .error e => .error e
+  | .ok (_, a) => match dedimArg reg EaR with
+    | .error e => .error e
+    | .ok (_, e) => match getDerivedUnitFallback reg "temperature" with
+      | .error er => .error er
+      | .ok U => match toUnitlessScalar T U with
+        | .error er => .error er
+        | .ok t => .ok (a, e, t)
+
+/-- the unitless rate constant of the unit-aware system -/
+def arrheniusDedim [HasExp α] (reg : Registry α) (A EaR T : PyVal α) : Except Err α :=
+  match arrheniusArgs reg A EaR T with
+  | .error e => .error e
+  | .ok (a, e, t) => .ok (arrheniusEval a e t)
+
+/-- `odesys.f_cb(*to_arrays(t, y, {'temperature': T}))` for a system all of whose rate constants are
+    `MassAction(Arrhenius([A_i, EaR_i]))` (one temperature for the whole system) -/
+def odeRhsArrhenius [HasExp α] [IntCast α] (reg : Registry α) (params : List (PyVal α × PyVal α)) (T : PyVal α)
+    (rxns : List Rxn) (y : List (PyVal α)) (ns : Nat) : Except Err (List α) :=
+  match mkOdeUnits reg ["temperature"] true [] with
+  | .error e => .error e
+  | .ok ou => match mapExcept (fun p : PyVal α × PyVal α => arrheniusDedim reg p.1 p.2 T) params with
+    | .error e => .error e
+    | .ok ks => match toArraysY ou y with
+      | .error e => .error e
+      | .ok ys => plainRhs ks rxns ys ns
+
+
+/-! ## `Eyring` and `Radiolytic` rate expressions, and unitless constants in general -/
+
+/-- `Eyring.__call__` (rates.py 294-297) on plain numbers: `c0 * T * exp(-c1 / T) * conc0 ** (1 - order)` -/
+def eyringEval [HasExp α] (c0 c1 conc0 T : α) (order : Int) : α :=
+  c0 * T * HasExp.exp (-(c1 / T)) * zpow conc0 (1 - order)
+
+/-- the four unitless numbers the unit-aware system evaluates an Eyring expression on: the three arguments
+    (`kB_h_times_exp_dS_R`, `dH_over_R`, and `conc0`, whose default `1 molar` is appended to `args` by `Expr.__init__`) through
+    `Expr.dedimensionalisation`, the temperature through the third `to_arrays` callback -/
+def eyringArgs (reg : Registry α) (c0 c1 conc0 T : PyVal α) : Except Err (α × α × α × α) :=
+  match dedimArg reg c0 with
+  | .error e => .error e
+  | .ok (_, a) => match dedimArg reg c1 with
+    | .error e => .error e
+    | .ok (_, b) => match dedimArg reg conc0 with
+      | .error e => .error e
+      | .ok (_, c) => match getDerivedUnitFallback reg "temperature" with
+        | .error er => .error er
+        | .ok U => match toUnitlessScalar T U with
+          | .error er => .error er
+          | .ok t => .ok (a, b, c, t)
+
+/-- the unitless Eyring rate constant of the unit-aware system -/
+def eyringDedim [HasExp α] (reg : Registry α) (c0 c1 conc0 T : PyVal α) (order : Int) : Except Err α :=
+  match eyringArgs reg c0 c1 conc0 T with
+  | .error e => .error e
+  | .ok (a, b, c, t) => .ok (eyringEval a b c t order)
+
+/-- `Radiolytic.__call__` (rates.py 125-135) with one dose rate, on plain numbers: `density * (doserate * g)` -/
+def radiolyticEval (g rho D : α) : α := rho * (D * g)
+
+/-- the three unitless numbers of a Radiolytic rate: the yield `g` through `Expr.dedimensionalisation`, `density` and
+    `doserate` through the third `to_arrays` callback with `p_units = [_get_derived_unit(reg, k) for k in all_pk]` -/
+def radiolyticArgs (reg : Registry α) (g rho D : PyVal α) : Except Err (α × α × α) :=
+  match dedimArg reg g with
+  | .error e => .error e
+  | .ok (_, a) => match getDerivedUnitFallback reg "density" with
+    | .error er => .error er
+    | .ok Ur => match getDerivedUnitFallback reg "doserate" with
+      | .error er => .error er
+      | .ok Ud => match toUnitlessScalar rho Ur with
+        | .error er => .error er
+        | .ok r => match toUnitlessScalar D Ud with
+          | .error er => .error er
+          | .ok d => .ok (a, r, d)
+
+/-- the unitless radiolytic production rate of the unit-aware system -/
+def radiolyticDedim (reg : Registry α) (g rho D : PyVal α) : Except Err α :=
+  match radiolyticArgs reg g rho D with
+  | .error e => .error e
+  | .ok (a, r, d) => .ok (radiolyticEval a r d)
+
+/-- `odesys.f_cb` once every rate constant is a unitless NUMBER (however it was obtained: plain constants, Arrhenius, Eyring,
+    radiolytic rates as zero-order constants): concentrations through `to_arrays`, then the plain right-hand side -/
+def odeRhsUnitless [IntCast α] (reg : Registry α) (ks : List α) (rxns : List Rxn) (y : List (PyVal α)) (ns : Nat) :
+    Except Err (List α) :=
+  match mkOdeUnits reg [] true [] with
+  | .error e => .error e
+  | .ok ou => match toArraysY ou y with
+    | .error e => .error e
+    | .ok ys => plainRhs ks rxns ys ns
+
 /-! ## the alternative builder `_create_odesys` -/
 
 /-- `_mk_dedim(unit_registry)["dedim_tcp"](t, c, p)` (ode.py 682-699) with the default `param_unit`:
